@@ -257,10 +257,13 @@ func (x *Exec) lookupSpec(name string) *SpecFunc {
 	return nil
 }
 
-func (x *Exec) useOpaque(pkgPath string) {
+// useOpaque: the "opaque T as Sort" declarations of the contract file the unit's contract
+// lives in (and of the shared assumed files).  Another contract file of the same package may
+// look inside T (e.g. to execute an iteration method of T on its body).
+func (x *Exec) useOpaque(pkgPath, file string) {
 	x.pkgPath = pkgPath
-	for _, pc := range x.db.Pkgs {
-		if pc.Pkg == pkgPath || pc.Pkg == "" {
+	for k, pc := range x.db.Pkgs {
+		if (pc.Pkg == pkgPath && (file == "" || strings.HasSuffix(k, "|"+file))) || pc.Pkg == "" {
 			for k, v := range pc.Opaque {
 				x.tc.opaque[k] = v
 			}
